@@ -184,7 +184,7 @@ func TestVerifC18RegressEmptyPayloadSigned(t *testing.T) {
 	reportKnownOrFail(t, st, problem, defect)
 }
 
-// Regression (FINDINGS.md, D-C18-2): an encrypted body sent without a declared length
+// Regression (FINDINGS.md, D19): an encrypted body sent without a declared length
 // (ContentLength == -1, Transfer-Encoding: chunked on the wire) must reach the handler
 // decrypted, like the same bytes sent with a Content-Length.  Shrunk from
 // TestVerifC18Cryption / TestVerifC18ContentSecurity.
